@@ -173,6 +173,40 @@ def run(R, tier):
             else:
                 good = False
         exp = {"nan": b"9.91E+37", "+inf": b"9.9E+37", "-inf": b"-9.9E+37", "finite": "write"}
+        if not (good and table == exp):
+            # the writer does not branch on is_nan / is_infinite / is_sign_negative in the shape read above (it may classify the
+            # value, compare it, use a table ...): decide the same table by folding the writer on values of each class
+            import math
+            width = 32 if fty == "f32" else 64
+            eng_f = fdai.Engine(P, u, inline=lambda n, r: _resp_helpers(n, r), models=dict(M.FLOAT_MODELS), loop_limit=3, max_paths=8)
+            tiny = 1e-45 if width == 32 else 5e-324
+            big = 3.4028234663852886e38 if width == 32 else 1.7976931348623157e308
+            classes = {"nan": [math.nan, -math.nan], "+inf": [math.inf], "-inf": [-math.inf], "finite": [0.0, -0.0, tiny, -tiny, 1.5, -2.25, 9.9e37, -9.91e37, big, -big]}
+            table2, good2 = {}, True
+            for cls_, vals in classes.items():
+                got = set()
+                for x in vals:
+                    val = fdai.mk_float(x, width)
+                    try:
+                        ps2 = [q for q in run_fmt(eng_f, b, val)]
+                    except (fdai.TooManyPaths, RecursionError):
+                        ps2 = []
+                    if len(ps2) != 1 or len(writes(ps2[0])) != 1 or writes(ps2[0])[0][0] not in ("push_str", "push_ascii"):
+                        good2 = False
+                        continue
+                    q, ws = ps2[0], writes(ps2[0])
+                    w = q.call("write")
+                    if w is None:
+                        got.add(C_bytes(ws[0][1]))
+                    else:
+                        g = (w.extra or {}).get("gargs") or ()
+                        got.add("write" if (tuple(g[:1]) == (fty,) and w.args[0] == snapshot(val) and CB.ret_of(ws[0][1], "write")) else "bad:%s" % q.describe())
+                if len(got) == 1:
+                    table2[cls_] = got.pop()
+                else:
+                    good2 = False
+            if (good2 and table2 == exp) or not table:
+                good, table = good2, table2
         R.check(good and table == exp, "R09.2", fty, "NaN -> 9.91E+37, +inf -> 9.9E+37, -inf -> -9.9E+37 (SCPI-99 7.2.1.4/5); finite -> lexical_core::write::<%s>(*self)" % fty, "%s response table is %s, expected %s" % (fty, table, exp), where=b.span)
 
     # ---- R09.3 bool -------------------------------------------------------------------------------------------
